@@ -157,6 +157,23 @@ func (st *c02State) accept(key string, p data.Point) {
 	}
 }
 
+// c02Forwarding: the sync client holds its subscription at the upstream (made the moment it regards itself
+// as connected).
+func c02Forwarding(g *c02Rig) bool {
+	noEcho := map[string]bool{}
+	for _, nc := range g.u.Bus.Conns() {
+		if nc.Opts.NoEcho && !nc.IsClosed() {
+			noEcho[fmt.Sprintf("c%d:", nc.ID())] = true
+		}
+	}
+	for _, sub := range g.u.Bus.Subscriptions() {
+		if i := strings.Index(sub, ":"); i > 0 && noEcho[sub[:i+1]] && strings.HasPrefix(sub[i+1:], "up.") {
+			return true
+		}
+	}
+	return false
+}
+
 func c02Ops() []c02Op {
 	side := func(g *c02Rig, s string) *sh.Inst {
 		if s == "D" {
@@ -483,6 +500,10 @@ func c02Body(t *testing.T, depth, devBound int) mc.Body {
 					return
 				}
 				early := devBound > 0 && x.Deviate(2, "next operation before quiescence") == 1
+				// is the sync client forwarding at the moment the operation is issued? (after "enable sync" or
+				// "link restored" it reconnects 10 ms later; an operation issued before that — a scheduling
+				// deviation — still falls into the outage)
+				forwarding := c02Forwarding(g)
 				var ok bool
 				err := g.s.do(func() error {
 					var e error
@@ -497,16 +518,17 @@ func c02Body(t *testing.T, depth, devBound int) mc.Body {
 					out = mc.Outcome{Violation: "operation " + op.name + " refused: " + err.Error(), Key: "legal-write-refused"}
 					return
 				}
-				if op.tomb && (st.disabled || st.linkDown || st.upAway) {
+				outage := st.disabled || st.linkDown || st.upAway || !forwarding
+				if op.tomb && outage {
 					// the newest tombstone written during an outage is the one that has to win
 					outageTomb = op.name
 				}
-				if !op.tomb && (st.disabled || st.linkDown || st.upAway) && (strings.Contains(op.name, " on A ") || strings.Contains(op.name, "A>B")) && outageDeadWrite == "" {
+				if !op.tomb && outage && (strings.Contains(op.name, " on A ") || strings.Contains(op.name, "A>B")) && outageDeadWrite == "" {
 					// a write on A or below it made while nothing is forwarded: it can only travel by catch-up, and the
 					// catch-up walk does not descend into a node that is deleted by the time it runs (known finding)
 					outageDeadWrite = op.name
 				}
-				if (st.disabled || st.linkDown || st.upAway) && strings.Contains(op.name, "twice-placed node B") && outageTwice == "" {
+				if outage && strings.Contains(op.name, "twice-placed node B") && outageTwice == "" {
 					// B hangs below the device twice (devD>B and devD>A>B): in the XOR hash of the device node its
 					// contribution cancels out, so a change on it made while nothing is forwarded is invisible to the
 					// catch-up comparison (known finding)
